@@ -104,7 +104,7 @@ def strip_comments(src: str) -> str:
 
 
 def lean_files():
-    for sub in ('Model', 'Gen', 'Proofs', 'Props', 'Driver'):
+    for sub in ('Model', 'Gen', 'Proofs', 'Props', 'Driver', 'Audit'):
         d = os.path.join(LEAN, sub)
         for root, _, files in os.walk(d):
             for f in sorted(files):
